@@ -4,7 +4,7 @@ import OptunaVerif.Model.Grid
 
 request  {"op":"run","n":n,"ks":[k..],"pre":[[gridId|null,"running"|"finished"|"waiting"]..],
           "choices":[g..],"raises":[trial..]}
-response {"trials":[[gridId|null,state]..],"stop":b,"crashed":b,"ncalls":n}
+response {"trials":[[gridId|null,state]..],"stop":b,"ncalls":n}
 request  {"op":"unvisited","n":n,"trials":[[gridId|null,state]..]} -> {"ids":[g..]}
 -/
 open Lean
@@ -40,7 +40,7 @@ def run (j : Json) : P Json := do
   let cx : Ctx := { ω := fun c => choices.getD c 0, raises := fun i => raises.contains i }
   let st := session cx n ks { trials := pre }
   return Json.mkObj [("trials", Json.arr (st.trials.map trialJson).toArray),
-    ("stop", st.stop), ("crashed", st.crashed), ("ncalls", st.calls)]
+    ("stop", st.stop), ("ncalls", st.calls)]
 
 def handle (j : Json) : Json :=
   match j.getObjVal? "op" with
